@@ -320,6 +320,15 @@ def c08_impl(case):
             concrete = isinstance(inst, S)
         except Exception:
             concrete = False
+        # ... and calling a @predicate function with a CONCRETE argument: ordinary Python (a bool) outside every block, an
+        # expression inside one; both observables must agree (2 = one is concrete and the other symbolic)
+        try:
+            pr_ = fine(objs[0])
+            pred_concrete = isinstance(pr_, bool)
+        except Exception:
+            pred_concrete = None
+        if pred_concrete is None or bool(pred_concrete) != bool(concrete):
+            concrete = 2
         # every symbolic operator of a variable (CanBehaveLikeAVariable): comparison, attribute access (an attribute that
         # WAS accessed inside a block before, and one that never was), indexing, calling, membership - all rejected outside
         # a block, none rejected inside one (2 = some are and some are not)
@@ -499,6 +508,11 @@ def c14_gen(rng, cid, tier):
         else:
             ops.append(('q', c))
     ops.append(('q', rng.randrange(n_cls)))
+    if int(cid[1:]) % 2 == 1 and len(ops) >= 3:
+        # a no-domain variable DECLARED on the still empty registry (first operation of the history) and evaluated later,
+        # after instances were constructed: it takes its domain at evaluation time - every instance constructed so far
+        pos = 2 + (int(cid[1:]) * 7) % (len(ops) - 1)
+        ops = [('qd', (int(cid[1:]) // 2) % n_cls)] + ops[:pos - 1] + [('qe',)] + ops[pos - 1:]
     case = {'id': cid, 'classes': classes, 'ops': ops}
     if rng.random() < 0.25:
         # SIZED classes: some root classes define __len__ (= the field a), so instances constructed with defaults / a=0 are
@@ -518,8 +532,10 @@ def c14_sexp(case):
             ops.append(('s', op[1]))
         elif op[0] == 'inf':
             ops += [('c', op[1])] * op[2]
-        elif op[0] in ('qa', 'qthe'):
-            continue                 # an abandoned / failed query is invisible to the registry
+        elif op[0] in ('qa', 'qthe', 'qd'):
+            continue                 # an abandoned / failed query, and a mere declaration, are invisible to the registry
+        elif op[0] == 'qe':
+            ops.append(('q', next(o[1] for o in case['ops'] if o[0] == 'qd')))      # evaluated here: the registry as it is NOW
         else:
             ops.append(op)           # ('q', c) ('clr',) ('infself', c, t)
     return sexp(('reg', case['id'], ('classes',) + cl, ('ops',) + tuple(ops)))
@@ -619,6 +635,11 @@ def c14_impl(case):
             elif k == 'q':
                 res = list(an(entity(let(built[op[1]]))).evaluate())
                 outs.append(','.join(str(x) for x in sorted(ids.get(id(o), -1) for o in res)))
+            elif k == 'qd':
+                declared = an(entity(let(built[op[1]])))        # declared now (nothing constructed yet), evaluated at 'qe'
+            elif k == 'qe':
+                res = list(declared.evaluate())
+                outs.append(','.join(str(x) for x in sorted(ids.get(id(o), -1) for o in res)))
     except Exception as e:
         outs.append(f'EXC:{type(e).__name__}:{e}')
     finally:
@@ -645,7 +666,7 @@ def c14(report, rng, tier, findings):
             raise HarnessError('driver: ' + line + ' :: ' + c14_sexp(case))
         _, body, m_inits = line.split('\t')
         model = body.split('|') if body else []
-        if len(model) == 1 and model[0] == '' and sum(1 for o in case['ops'] if o[0] in ('q', 'infself')) == 1:
+        if len(model) == 1 and model[0] == '' and sum(1 for o in case['ops'] if o[0] in ('q', 'infself', 'qe')) == 1:
             model = ['']
         for op in case['ops']:
             report.count('op_' + op[0])
@@ -655,7 +676,7 @@ def c14(report, rng, tier, findings):
             report.nontrivial.add(c14_sexp({**case, 'id': 'x'}))
         report.add_sample(c14_sexp(case))
         report.traces += len(outs)
-        nq = sum(1 for o in case['ops'] if o[0] in ('q', 'infself'))
+        nq = sum(1 for o in case['ops'] if o[0] in ('q', 'infself', 'qe'))
         model = (body.split('|') + [''] * nq)[:nq] if nq else []
         if outs != model or str(inits) != m_inits:
             what = (f'no-domain queries returned {outs} (instances numbered by construction order), the registry log says '
@@ -756,6 +777,16 @@ def c07(report, rng, tier, findings):
             extra = ('cmp', rng.choice(('ge', 'ne')), ('attr', 'b', ('var', v0)), ('lit', ('i', rng.randint(0, 2))))
             case['cond'] = [rng.choice([p, ('and', p, extra), ('or', p, extra)])]
             case['pred_kw'] = rng.random() < 0.5
+        if i % 10 == 7:
+            # a membership test of an attribute against a CONSTANT list (its left operand, the list, mentions no variable),
+            # alone or as the first operand of and_/or_
+            v0 = case['vars'][0][0]
+            xa = ('attr', 'a', ('var', v0))
+            lst = ('lit', ('l',) + tuple(('i', k) for k in rng.sample(range(0, 5), rng.randint(1, 3))))
+            mem = ('in', xa, lst) if rng.random() < 0.5 else ('contains', lst, xa)
+            extra = ('cmp', rng.choice(('ge', 'ne')), ('attr', 'b', ('var', v0)), ('lit', ('i', rng.randint(0, 2))))
+            case['cond'] = [rng.choice([mem, mem, ('and', mem, extra), ('or', mem, extra)])]
+            report.count('membership_in_a_constant_list')
         vid, cls, raw = case['vars'][0]
         all_objs = [('o', j) for j, _, _ in case['objs']]
         raw = rng.sample(all_objs, len(all_objs))                 # distinct objects, mixed types
